@@ -276,6 +276,19 @@ theorem ext_helperStep (c : Committee) (s : Node) (d : Digest) (o : Nat) : Ext s
       · exact Ext.refl s
       · exact ext_fail _ _
 
+theorem ext_storeBatch (s : Node) (d : Nat) : Ext s (s.storeBatch d) := by
+  unfold storeBatch
+  split
+  · exact Ext.refl s
+  · refine ⟨by simp, by simp, by simp, by simp, rfl, ⟨[], by simp⟩, ⟨[], by simp⟩, ?_⟩
+    intro x hx; simp; right; exact hx
+
+theorem ext_digestStep (s : Node) (d : Nat) : Ext s (s.digestStep d) := by
+  unfold digestStep
+  split
+  · exact ext_storeBatch s d
+  · exact Ext.trans (ext_storeBatch s d) (Ext.of_same _ _ rfl rfl rfl rfl rfl ⟨[], rfl⟩ rfl rfl)
+
 theorem ext_step (c : Committee) (s : Node) (e : Event) : Ext s (step c s e) := by
   unfold step
   split
@@ -291,13 +304,8 @@ theorem ext_step (c : Committee) (s : Node) (e : Event) : Ext s (step c s e) := 
       · refine Ext.trans (b := { s with loopQ := _ }) ?_ (ext_processBlock c _ _)
         exact Ext.of_same _ _ rfl rfl rfl rfl rfl ⟨[], rfl⟩ rfl rfl
     · exact ext_proposerStep s _
-    · split
-      · exact Ext.refl s
-      · exact Ext.of_same _ _ rfl rfl rfl rfl rfl ⟨[], rfl⟩ rfl rfl
-    · split
-      · exact Ext.refl s
-      · refine ⟨by simp, by simp, by simp, by simp, rfl, ⟨[], by simp⟩, ⟨[], by simp⟩, ?_⟩
-        intro d hd; simp; right; exact hd
+    · exact ext_digestStep s _
+    · exact ext_storeBatch s _
     · split
       · exact Ext.refl s
       · split
